@@ -1,0 +1,21 @@
+//! Verification hooks (only with `--cfg h3_verif`): nothing here is compiled otherwise.
+#![allow(missing_docs)]
+
+pub use crate::qpack::verif as qpack;
+
+use std::sync::OnceLock;
+
+static PREEMPT: OnceLock<fn(&'static str)> = OnceLock::new();
+
+/// Installs the callback run at every named pre-emption point (once per process).
+pub fn install_preempt(f: fn(&'static str)) {
+    let _ = PREEMPT.set(f);
+}
+
+/// A named pre-emption point: a no-op unless a harness installed a callback.
+#[inline]
+pub fn preempt(point: &'static str) {
+    if let Some(f) = PREEMPT.get() {
+        f(point)
+    }
+}
